@@ -72,7 +72,7 @@ CLAIMED = {
              "equal to the same derivation evaluated in double from the same (float32 or double) inputs, compositionally over the proven "
              "quantise_scale summary; operand selection; _prepare_scale_and_bias hands the reference per-channel scale to the full or (int16 IFM with int64 bias) the "
              "reduced quantisation; generate_scaling_for_elementwise uses the simplified Add/Sub derivation only for equal input scales and places either "
-             "derivation's results in the OPA/OPB/OFM scale registers unchanged (operand swap under reversed operands). Added later: packed scale records are only reused for the same bias values and the same input and output scales (scale_cache_key).",
+             "derivation's results in the OPA/OPB/OFM scale registers unchanged (operand swap under reversed operands). Added later: packed scale records are only reused for the same bias values and the same input and output scales (scale_cache_key); the exact average-pool divisor pair reaches the OFM_SCALE register through the real generate_ofm_scaling_for_pooling for a symbolic np.float32 / float64 / Python-float tensor scale (pool_register); the reduced int16 multiplier is exactly the reference reduction (m + 2^15) >> 16.",
         note="Trusted: z3 (FP/BV/LIA), symx float proxies with NumPy-2 (NEP 50) promotion, the TFLite QuantizeMultiplier definition "
              "restated as an integer formula. Assumptions: positive normal inputs in the main harness (other classes enumerated), negative "
              "exact ties of the pooling divisor may round either way, reduced form for shift >= 16. Outside: MUL reference precision, "
